@@ -9,10 +9,11 @@ from vlib.fsmt.equiv import Prog, check_equiv, replay_equiv
 
 class Case:
     def __init__(self, name, src, entry, sizes, apply, group, absent=(), include_locals=(), unwind=5, must_change=True,
-                 note='', raise_is_violation=False, custom=None):
+                 note='', raise_is_violation=False, custom=None, trace_pragmas=False):
         self.name, self.src, self.entry, self.sizes, self.apply, self.group = name, src, entry, sizes, apply, group
         self.absent, self.include_locals, self.unwind, self.must_change, self.note = absent, include_locals, unwind, must_change, note
         self.raise_is_violation = raise_is_violation
+        self.trace_pragmas = trace_pragmas
         self.custom = custom      # optional callable(case, sizes) -> record; replaces the Fortran-vs-Fortran obligation
 
 
@@ -46,7 +47,7 @@ def _work(item):
         elif isinstance(ret, tuple):
             p1, p2 = ret          # the case defines both sides of the obligation itself
     except Exception as ex:  # pylint: disable=broad-except
-        rec.update(verdict='transform-raises', why=f'{type(ex).__name__}: {str(ex)[:300]}',
+        rec.update(verdict='transform-raises', why=f'{type(ex).__name__}: {str(ex)[:300]}', exc=type(ex).__name__,
                    tb=traceback.format_exc()[-600:])
         return rec
     try:
@@ -56,14 +57,14 @@ def _work(item):
         return rec
     rec['changed'] = after != before
     try:
-        r = check_equiv(p1, p2, sizes, include_locals=c.include_locals, unwind=c.unwind)
+        r = check_equiv(p1, p2, sizes, include_locals=c.include_locals, unwind=c.unwind, trace_pragmas=c.trace_pragmas)
     except Exception as ex:  # pylint: disable=broad-except
         rec.update(verdict='harness-exception', why=f'{type(ex).__name__}: {str(ex)[:300]}', tb=traceback.format_exc()[-800:])
         return rec
     rec.update(r)
     if r['verdict'] == 'sat':
         try:
-            rep, msg = replay_equiv(p1, p2, sizes, r.get('model'))
+            rep, msg = replay_equiv(p1, p2, sizes, r.get('model'), trace_pragmas=c.trace_pragmas)
         except Exception as ex:  # pylint: disable=broad-except
             rep, msg = None, f'replay crashed: {type(ex).__name__}: {ex}'
         rec['replayed'], rec['replay_msg'] = rep, msg
@@ -95,7 +96,8 @@ def run_tv(prop, tier, seed, cases, rule, functions, bounds, assumptions, quick_
             continue
         if v in ('frontend-error', 'harness-exception'):
             raise RuntimeError(f'{key}: {v}: {rec.get("why")}\n{rec.get("tb", "")}')
-        if v == 'transform-raises' and CASES_BY_NAME[rec['case']].raise_is_violation:
+        riv = CASES_BY_NAME[rec['case']].raise_is_violation
+        if v == 'transform-raises' and (riv is True or (isinstance(riv, (tuple, list)) and rec.get('exc') in riv)):
             # the operation under test must at least produce a result (e.g. pickling): concrete failure, replay = re-run
             ctx.verdict('raises')
             ctx.obligation(key)
